@@ -114,6 +114,8 @@ register(PropertySpec(
              "a local collection that is asked 'seen before?' to drop a row is added to on every path from 'not seen' to the yield (the rows replayed from a result cache are replayed once)"),
         Rule("GRAPH-TRAVERSAL-ALL", _lazy("history", "rule_graph_traversal_all"), 4,
              "the walks over the expression graph (reset, cache invalidation, variable collection) see all children / descendants / parents of a node, also one that has another primary parent"),
+        Rule("CONDITIONS-NOT-DROPPED", _lazy("the", "rule_conditions_not_dropped"), 3,
+             "every case of the an()/the()/infer() dispatcher hands the written conditions on, is taken only when there are none, or refuses them: none builds the query for fewer conditions than were written"),
     ],
     explanation="Decides the clause 'the condition vocabulary denotes the ordinary Python operator': the node each "
                 "public comparison/membership entry constructs (arguments mapped to dataclass fields through the MRO "
@@ -271,6 +273,10 @@ register(PropertySpec(
              "(shared with C08) the stack an evaluation works on is new per evaluation, never a parameter default shared by all calls"),
         Rule("STREAM-UNDER-CLEANUP", _lazy("flags", "rule_stream_under_cleanup"), 1,
              "a method that holds state for the duration of an evaluation in a try/finally or with bracket produces the rows inside it (yield from), it does not return an unstarted generator from inside the bracket"),
+        Rule("VARIABLE-DISPATCH", _lazy("flags", "rule_variable_dispatch"), 4,
+             "the cases of Variable._evaluate__ as a table: a predicate is executed with or without arguments, a constructor term is constructed, a variable inferred through conclusions only is not"),
+        Rule("INFER-MARK", _lazy("ruletree", "rule_infer_mark"), 12,
+             "(shared with C11) infer(...) and a rule written with an(...) mark the same selected variables as inferred"),
     ],
     explanation="User predicates and @symbol constructors consult the ambient mode; the result is mode-independent iff "
                 "every public entry switches the mode off around every point at which evaluation runs. That is a "
@@ -315,7 +321,7 @@ register(PropertySpec(
              "the recursive reset / invalidation traversals apply themselves to every child on every path (no subtree is skipped)"),
         Rule("CLEAR-COMPLETE", _lazy("cacheidx", "rule_clear_complete"), 4,
              "(shared with C20) invalidating a result cache after an abandoned evaluation also withdraws its coverage marks"),
-        Rule("MEMO-SOURCE-FAILURE", _lazy("lazy", "rule_memo_source_failure"), 1,
+        Rule("MEMO-SOURCE-FAILURE", _lazy("lazy", "rule_memo_source_failure"), 3,
              "a one-shot domain source that raised (user code inside a sub-query used as a domain) is not mistaken for an exhausted one"),
         Rule("EVAL-FLAG", _lazy("history", "rule_eval_flag"), 3,
              "scalar flags a node sets on itself during evaluation and reads back are assigned before they are read in every evaluation, "
@@ -633,6 +639,8 @@ register(PropertySpec(
              "an already quantified predicate-form term handed to an()/the()/infer() is re-wrapped by its description (conditions included), never by its selected variable alone"),
         Rule("QUANTIFIER-KIND", _lazy("the", "rule_quantifier_kind"), 3,
              "(shared with C06) the(T(From(d), f=v)) is a The over the description of the term, as the(entity(x, x.f == v)) is"),
+        Rule("VARIABLE-DISPATCH", _lazy("flags", "rule_variable_dispatch"), 4,
+             "the cases of Variable._evaluate__ as a table: a predicate is executed with or without arguments, a constructor term is constructed, a variable inferred through conclusions only is not"),
     ],
     explanation="Decides the construction-time clauses: positional binding re-implemented by the library agrees with "
                 "Python's (finite abstract evaluation of the loop over scenario argument lists), the type filter uses "
@@ -848,6 +856,10 @@ register(PropertySpec(
              "(shared with C12) a variable without a domain that only a conclusion mentions ranges over all registered instances for every firing row"),
         Rule("GRAPH-TRAVERSAL-ALL", _lazy("history", "rule_graph_traversal_all"), 4,
              "the walks over the expression graph (reset, cache invalidation, variable collection) see all children / descendants / parents of a node, also one that has another primary parent"),
+        Rule("REG-OWN-CLASS", _lazy("registry", "rule_reg_own_class"), 1,
+             "an instance the user's own __new__ allocated is filed in the store of type(instance), not of the class the constructor was called on (a factory __new__ may return a subclass)"),
+        Rule("MEMO-SOURCE-FAILURE", _lazy("lazy", "rule_memo_source_failure"), 3,
+             "(shared with C04) a variable without a domain that is the domain of another variable is read anew by every evaluation: the per-evaluation reset re-creates a domain given as an expression"),
     ],
     explanation="Registry discipline is ownership: a single writer, on a must-pass-through path of the concrete "
                 "constructor arm, keyed by the runtime class; the symbolic arm provably (call-graph closure) cannot "
@@ -1075,6 +1087,8 @@ register(PropertySpec(
              "the walks over the expression graph (reset, cache invalidation, variable collection) see all children / descendants / parents of a node, also one that has another primary parent"),
         Rule("ROW-NOT-MEMOISED", _lazy("flags", "rule_row_not_memoised"), 1,
              "no evaluation method keeps a row it produced in an attribute of the node and hands it out again on a later call (an operand is evaluated once per binding of the enclosing query)"),
+        Rule("CONDITIONS-NOT-DROPPED", _lazy("the", "rule_conditions_not_dropped"), 3,
+             "every case of the an()/the()/infer() dispatcher hands the written conditions on, is taken only when there are none, or refuses them: none builds the query for fewer conditions than were written"),
     ],
     explanation="An implicit join is a join only if every operator threads the binding it received to its operands and "
                 "keeps everything its operands bound. Both are provenance facts on the evaluation call sites and the "
@@ -1189,6 +1203,8 @@ register(PropertySpec(
              "no condition outside the container reads what has been pulled from a variable's domain so far (the memo): what a query delivers does not depend on who advanced a shared iterator before"),
         Rule("VALUE-IDENTITY", _lazy("extra", "rule_value_identity"), 8,
              "(shared with C20) distinct elements of the iterator stay distinct in the memo: the identifier of a wrapped value is its identity, an _id_ attribute is believed only of the package's own expressions"),
+        Rule("MEMO-SOURCE-FAILURE", _lazy("lazy", "rule_memo_source_failure"), 3,
+             "(shared with C04) after a failed pull the elements the source still has are pulled by later evaluations: the wrapper between the memo and the source is not a generator"),
     ],
     explanation="Laziness is preserved iff nothing on the path from the user's domain to the user's next() materialises a "
                 "stream. That is a may-materialise taint analysis over every function that handles evaluation streams or "
